@@ -769,7 +769,10 @@ class History:
                     if (n["uid"], n["gid"]) != (r["uid"], r["gid"]):
                         problem = "%r: owner %d:%d restored as %d:%d" % (rel, n["uid"], n["gid"], r["uid"], r["gid"])
                         break
-                    if n["mtime"] != r["mtime"]:
+                    # directories above the sandbox (e.g. /verif/build/tmp) are shared with other check runs and change under us: only the
+                    # ancestors inside the sandbox are compared for mtime
+                    outside = is_ancestor and not (n["path"] + "/").startswith(w.sb.root.rstrip("/") + "/")
+                    if n["mtime"] != r["mtime"] and not outside:
                         problem = "%r: mtime %d restored as %d" % (rel, n["mtime"], r["mtime"])
                         break
             if not problem and self.rng.random() < self.model_restore_rate:
